@@ -81,3 +81,41 @@ Proof.
   { apply map_ext_in. intros a Hin. rewrite forallb_forall in Ca. apply (expand_eq se ss f a (Ca a Hin)). }
   rewrite Em. exact (decon_nary_expand (with_keep f) eq_refl Hext n p h args H).
 Qed.
+
+(** ---- cls.unwrap / cls.extract for every class, the base class included ---- *)
+Definition p_head_code (t:pat) : N :=
+  match t with
+  | EVar _ => 0 | SVar _ => 1 | Sym _ => 2 | Imp _ _ => 3 | App _ _ => 4 | Ex _ _ => 5 | Mu _ _ => 6
+  | MVar _ _ _ _ _ _ => 7 | ESub _ _ _ => 8 | SSub _ _ _ => 9
+  end.
+Definition p_children (t:pat) : list pat :=
+  match t with
+  | Imp l r | App l r => [l; r]
+  | Ex _ q | Mu _ q => [q]
+  | ESub q x g => [q; g; EVar x]
+  | SSub q X g => [q; g; SVar X]
+  | _ => []
+  end.
+
+Theorem unwrap_cls_expand f : f_mv_keep_subst f = true -> f_inst_extend f = true ->
+  forall n c p u, unwrap_cls f n c p = Some u ->
+  match u with
+  | Some l => (c = 11 \/ c = p_head_code (expand f p)) /\ map (expand f) l = p_children (expand f p)
+  | None => c <> 11 /\ c <> p_head_code (expand f p)
+  end.
+Proof.
+  intros Hk He n c p u H. unfold unwrap_cls in H. bind_inv H as h Hh. inversion H; subst; clear H.
+  apply (hnf_expand f Hk He) in Hh as [E Hi]. rewrite <- E.
+  assert (Hc : head_code h = p_head_code (expand f h)) by (destruct h; try reflexivity; discriminate).
+  assert (Hch : map (expand f) (children h) = p_children (expand f h)) by (destruct h; try reflexivity; discriminate).
+  rewrite <- Hc, <- Hch.
+  destruct (N.eqb c 11) eqn:E1; simpl.
+  - apply N.eqb_eq in E1. auto.
+  - destruct (N.eqb c (head_code h)) eqn:E2.
+    + apply N.eqb_eq in E2. auto.
+    + apply N.eqb_neq in E1, E2. auto.
+Qed.
+
+Theorem unwrap_cls_bridge se ss f n c p : corner_free se ss p = true ->
+  unwrap_cls f n c p = unwrap_cls (with_keep f) n c p.
+Proof. intro Hp. unfold unwrap_cls. rewrite (hnf_bridge se ss f n p Hp). reflexivity. Qed.
